@@ -118,6 +118,9 @@ def parseField (a : Attempt) (fld : String) : Option Attempt :=
     else parseField2 a r n
   | ["hs", k, v] => some { a with hdrOps := a.hdrOps ++ [.set k v] }
   | ["ha", k, v] => some { a with hdrOps := a.hdrOps ++ [.add k v] }
+  | ["hp", k, v] => some { a with hdrOps := a.hdrOps ++ [.add k v] }   -- h[k] = append(h[k], v)
+  | ["h0", k, v] => some { a with hdrOps := a.hdrOps ++ [.set0 k v] }
+  | ["hl", k, v] => some { a with hdrOps := a.hdrOps ++ [.setLast k v] }
   | ["rh", k, v] => some { a with respHdr := a.respHdr ++ [(k, v)] }
   | _ => none
 
